@@ -58,6 +58,7 @@ static inline _Bool agg_wf_view(const struct url_aggregator *u, agg_view_t *v) {
     if (!wf_no_byte(b->d, pe + 2, ue, ':', '@', '/', '?', '#')) return 0;
     if (hs > ue) {
       if (b->d[ue] != ':') return 0;
+      if (hs == ue + 1) return 0;                  /* a stored password is non-empty: every editor drops the ':' with an empty password */
       v->has_password = 1;
       v->password = (sv_t){b->d + ue + 1, hs - (ue + 1)};
       if (!wf_no_byte(b->d, ue + 1, hs, ':', '@', '/', '?', '#')) return 0;
